@@ -33,7 +33,11 @@ partial def decAct (j : Json) : Except String Act := do
   | "attach" => pure .attach
   | "raise" =>
     let sub := match fieldOpt j "sub" with | .bool b => b | _ => false
-    pure (.raise (← decClass (← (← field j "kind").getStr?) sub).kind)
+    -- "base": the object is a BaseException that is no Exception (SystemExit, GeneratorExit, a project's own);
+    -- "args" (what an Abort* was constructed with) only shapes the message text, which is not modelled
+    match fieldOpt j "base" with
+    | .str _ => pure (.raise .baseExc)
+    | _ => pure (.raise (← decClass (← (← field j "kind").getStr?) sub).kind)
   | "gate" => pure .gate
   | "thread" => pure (.thread (← (← (← field j "script").getArr?).toList.mapM decAct))
   | "attachw" => pure (.attachBlock (← (← (← field j "script").getArr?).toList.mapM decAct))
